@@ -147,7 +147,44 @@ def compare(case, i, line, ir, mr):
         if not ir.startswith('ok'):
             return 'cmp did not return -1/0/1: %s (model: %s)' % (ir, mr)
         return ('divergence', 'cmp returned %s, model %s' % (ir, mr))
-    return 'implementation %s, model %s' % (ir, mr)
+    # sort / dictable.sort: the model's answer is the unique stable sort under the MODEL's cmp.  Decide the statement with the
+    # implementation's own cmp: if the output is a correctly ordered (stable) permutation under it, model and code merely diverge.
+    bad = statement_fails(line, ir)
+    if bad:
+        return '%s; implementation %s, model %s' % (bad, ir, mr)
+    return ('divergence', 'implementation %s, model %s (still ordered under the implementation\'s own cmp)' % (ir, mr))
+
+
+def statement_fails(line, ir):
+    import pyg_base
+    if not ir.startswith('ok '):
+        return 'call failed: ' + ir
+    sx = proto.parse(line)
+    out = proto.dec(proto.parse(ir[3:]))
+    op = sx[1]
+    if op == 'sort':
+        xs = proto.dec(sx[2])
+        cx = sorted(repr(proto.canon(proto.parse(enc(x)))) for x in xs)
+        co = sorted(repr(proto.canon(proto.parse(enc(x)))) for x in out)
+        if cx != co:
+            return 'sort result is not a permutation of the input'
+        if any(pyg_base.cmp(a, b) == 1 for a, b in zip(out, out[1:])):
+            return 'sort result is not non-decreasing under cmp'
+        return None
+    if op in ('sortidx', 'byvalidx'):
+        if op == 'sortidx':
+            keys = proto.dec(sx[2])
+        else:
+            orders, rows = proto.dec(sx[2]), proto.dec(sx[3])
+            keys = [[(o.index(x) if x in o else len(o)) for o, x in zip(orders, r)] for r in rows]
+        if sorted(out) != list(range(len(keys))):
+            return 'dictable.sort result is not a permutation of the rows'
+        for a, b in zip(out, out[1:]):
+            c = pyg_base.cmp(keys[a], keys[b])
+            if c == 1 or (c == 0 and a > b):
+                return 'dictable.sort: rows %d,%d out of order / tie not in original order' % (a, b)
+        return None
+    return 'unknown op'
 
 
 def nontrivial(line, reply):
